@@ -41,7 +41,7 @@ ASSUMPTIONS = [
 ]
 PROBES = ["depth_changed_during_run", "shift_none_grows", "shift_on_empty", "additive_after_shift", "alias_probe_get", "alias_probe_set",
           "rejected_additive_empty", "rejected_negative_index", "rejected_no_index", "rejected_two_indices_get", "rejected_get_beyond_depth",
-          "rejected_shift_negative", "rejected_shift_location", "set_both_locations", "depth_ge3_filled", "init_all_indices", "depth3_window_filled"]
+          "rejected_shift_negative", "rejected_shift_location", "set_both_locations", "integer_dtype_value", "depth_ge3_filled", "init_all_indices", "depth3_window_filled"]
 
 LOCS = (pp.TIME_STEP_SOLUTIONS, pp.ITERATE_SOLUTIONS)
 
@@ -97,9 +97,17 @@ class Window:
         self.slots = new
 
 
-def fresh_value(counter, size):
+def fresh_value(counter, size, as_int=False):
+    """Unique values; floats carry a fractional part (so that a silent cast to an integer buffer is visible), integer
+    arrays are written now and then because nothing in the API restricts the dtype of stored values."""
     counter[0] += 1
-    return np.arange(size, dtype=float) + counter[0] * 16.0
+    if as_int:
+        return np.arange(size, dtype=np.int64) + counter[0] * 16
+    return np.arange(size, dtype=float) + counter[0] * 16.0 + 0.25
+
+
+def _int_slot(w) -> bool:
+    return bool(w.n) and np.issubdtype(w.slots[0][0].dtype, np.integer)
 
 
 # --------------------------------------------------------------------------------------
@@ -146,7 +154,11 @@ def run_helpers(ch, tr: Trace) -> None:
         which = ch.draw(3)  # 0 time, 1 iterate, 2 both
         locs = [LOCS[0]] if which == 0 else [LOCS[1]] if which == 1 else list(LOCS)
         additive = ch.flag(1, 3)
-        v = fresh_value(counter, size)
+        # an additive write must be castable into the stored array (int += float is a numpy error, not porepy's)
+        as_int = any(_int_slot(model[(loc, nm)]) for loc in locs) if additive else ch.flag(1, 5)
+        if as_int:
+            tr.probe("integer_dtype_value")
+        v = fresh_value(counter, size, as_int)
         k = {}
         for loc in locs:
             k.update(kw(loc, 0))
@@ -182,7 +194,7 @@ def run_helpers(ch, tr: Trace) -> None:
             w.set0(v, additive)
         # aliasing: mutate the array we handed in
         if ch.flag(1, 3):
-            arg += 1000.0
+            arg += 1000
             tr.probe("alias_probe_set")
         tr.op("set", "ok", nm, which, "additive" if additive else "overwrite")
         check_all(f"set({nm}, {k}, additive={additive})")
@@ -194,7 +206,7 @@ def run_helpers(ch, tr: Trace) -> None:
         if w.n:
             return
         d = ch.rng(1, 3)
-        v = fresh_value(counter, size)
+        v = fresh_value(counter, size, ch.flag(1, 5))
         for i in range(d):
             pp.set_solution_values(nm, v, data, **kw(loc, i))
         w.init_all(v, d)
@@ -224,7 +236,7 @@ def run_helpers(ch, tr: Trace) -> None:
             return
         i = ch.draw(w.n)
         got = pp.get_solution_values(nm, data, **kw(loc, i))
-        got += 777.0  # mutate the returned array
+        got += 777  # mutate the returned array
         tr.probe("alias_probe_get")
         tr.op("get_mutate", "ok", nm, loc, i, changing=False)
         check_all(f"mutating the array returned by get({nm}, {loc}, {i})")
@@ -341,7 +353,10 @@ def run_eqsys(ch, tr: Trace) -> None:
         for loc in locs:
             k.update(kw(loc, 0))
         sizes = [int(es.dofs_of([v]).size) for v in vs]
-        vals = [fresh_value(counter, s) for s in sizes]
+        as_int = any(_int_slot(model[(loc, v.id)]) for loc in locs for v in vs) if additive else ch.flag(1, 5)
+        if as_int:
+            tr.probe("integer_dtype_value")
+        vals = [fresh_value(counter, s, as_int) for s in sizes]
         vec = np.concatenate(vals) if vals else np.empty(0)
         if additive and any(model[(loc, v.id)].n == 0 for loc in locs for v in vs):
             # partially applied additive writes across several variables are outside the statement; only issue the
@@ -368,7 +383,7 @@ def run_eqsys(ch, tr: Trace) -> None:
         if which == 2:
             tr.probe("set_both_locations")
         if ch.flag(1, 3):
-            handed += 1000.0
+            handed += 1000
             tr.probe("alias_probe_set")
         tr.op("set", "ok", which, "additive" if additive else "overwrite", [v.id for v in vs])
         check_all(f"set_variable_values({k}, additive={additive}, vars={[ (v.name, v.domain.id) for v in vs]})")
@@ -400,7 +415,7 @@ def run_eqsys(ch, tr: Trace) -> None:
             return
         i = ch.draw(n)
         got = es.get_variable_values(None, **kw(loc, i))
-        got += 555.0
+        got += 555
         tr.probe("alias_probe_get")
         tr.op("get_mutate", "ok", loc, i, changing=False)
         check_all("mutating the array returned by get_variable_values")
@@ -444,12 +459,23 @@ def _driver_run(ch, tr):
     return driver_sim.make_run("C08")(ch, tr)
 
 
+def _driver_mp_run(ch, tr):
+    from engines import driver_sim
+
+    return driver_sim.make_run("C08", families=("energy", "mech", "poro"))(ch, tr)
+
+
 WORKLOADS = [
     Workload(
         name="driver", run=_driver_run, runs={"quick": 128, "thorough": 4_000}, chunk=8, run_timeout=300.0,
         real=["SolutionStrategy.update_solution / after_nonlinear_iteration (depth = len(time_step_indices) / len(iterate_indices), 1-3) inside the real time loop and Newton loop under injected solver faults"],
         stub=["fault-injecting overrides of check_convergence / solve_linear_system", "save_data_time_step is a no-op"],
         note="anchor 2 of the property: model usage of the sliding window, observed after every converged/failed step",
+    ),
+    Workload(
+        name="driver_mp", run=_driver_mp_run, runs={"quick": 32, "thorough": 1_500}, chunk=4, run_timeout=600.0,
+        real=["as workload driver, physics = MassAndEnergyBalance / MomentumBalance with contact mechanics / Poromechanics (vector, interface and contact-traction variables in the windows)"],
+        stub=["fault-injecting overrides of check_convergence / solve_linear_system", "save_data_time_step is a no-op"],
     ),
     Workload(
         name="helpers", run=run_helpers, runs={"quick": 40_000, "thorough": 3_000_000}, chunk=1000, run_timeout=30.0,
